@@ -582,11 +582,20 @@ func paramFieldChain(v ssa.Value) string {
 		return paramFieldChain(x.X)
 	case *ssa.ChangeInterface:
 		return paramFieldChain(x.X)
+	case *ssa.Alloc:
+		if x.Comment != "" {
+			return x.Comment // a value parameter or local spilled to memory
+		}
+	case *ssa.FieldAddr:
+		st := core.Deref(x.X.Type()).Underlying().(*types.Struct)
+		if st.Field(x.Field).Embedded() {
+			return paramFieldChain(x.X)
+		}
+		return paramFieldChain(x.X) + "." + st.Field(x.Field).Name()
 	case *ssa.UnOp:
 		if x.Op == token.MUL {
 			if fa, ok := x.X.(*ssa.FieldAddr); ok {
-				st := core.Deref(fa.X.Type()).Underlying().(*types.Struct)
-				return paramFieldChain(fa.X) + "." + st.Field(fa.Field).Name()
+				return paramFieldChain(fa)
 			}
 		}
 	case *ssa.Field:
